@@ -271,7 +271,8 @@ func (mc *MemoryChannel) finishRdb(writer *MemoryRdbWriter, err error) {
 	if mc.rdbWriter == writer {
 		mc.rdbWriter = nil
 	}
-	if err != nil && mc.rdb == writer.rdb {
+	// an error, or a writer closed before the whole snapshot was received : drop the partial snapshot
+	if (err != nil || writer.remain.Load() != 0) && mc.rdb == writer.rdb {
 		mc.totalSize -= writer.rdb.bufferedSize()
 		if mc.totalSize < 0 {
 			mc.totalSize = 0
@@ -842,6 +843,7 @@ type MemoryRdbWriter struct {
 	reader  io.Reader
 	rdb     *memoryRdb
 	current atomic.Pointer[memorySegment]
+	remain  atomic.Int64 // bytes of the snapshot not received yet
 	wait    usync.WaitCloser
 }
 
@@ -852,6 +854,7 @@ func newMemoryRdbWriter(ch *MemoryChannel, reader io.Reader, rdb *memoryRdb) *Me
 		rdb:    rdb,
 	}
 	w.current.Store(rdb.firstSegment())
+	w.remain.Store(rdb.size)
 	w.wait = usync.NewWaitCloser(func(err error) {
 		ch.finishRdb(w, err)
 	})
@@ -904,6 +907,7 @@ func (w *MemoryRdbWriter) ingest() error {
 		if n > 0 {
 			written, werr := w.ch.appendRdb(w, buf[:n])
 			remain -= int64(written)
+			w.remain.Store(remain)
 			if werr != nil {
 				return fmt.Errorf("rdb writer error : %w", werr)
 			}
